@@ -200,12 +200,27 @@ def check(td, entry=0, sig=None):
                     else:
                         v = proxied(td, env, "0")
                 else:
-                    if entry == 0:
-                        v = run_loop(afn.asyncio(td, env, "0"))
-                    elif entry == 1:
-                        v = run_loop(Holder(3).m.asyncio(td, env, "0"))
-                    else:
-                        v = run_loop(proxied.asyncio(td, env, "0"))
+                    flags = []
+
+                    async def main():
+                        # the coroutine is awaited in THIS asyncio task (same context): the flag must be off
+                        # before it starts and again after it finished, also when it failed
+                        flags.append(is_asyncio_mode())
+                        try:
+                            if entry == 0:
+                                return await afn.asyncio(td, env, "0")
+                            elif entry == 1:
+                                return await Holder(3).m.asyncio(td, env, "0")
+                            else:
+                                return await proxied.asyncio(td, env, "0")
+                        finally:
+                            flags.append(is_asyncio_mode())
+                    try:
+                        v = run_loop(main())
+                    finally:
+                        if any(flags):
+                            env.problems.append("asyncio-mode flag seen by the awaiting coroutine before/after "
+                                                "fn.asyncio(): %r" % (flags,))
                 got = ("v", v)
             except Exception as e:
                 reraise_control(e)
